@@ -201,7 +201,10 @@ def simulate_paths(work, name, ns, nc, h, atomic, num, depth, seed, big=None):
     return generated, plans, exps, len(edges)
 
 
-def replay_paths(chk, bindirs, stream, plans, exps, tag, source, stats, chunk=8000):
+BOUNDARY_BITS = (7, 8, 15, 16, 30, 31)     # besides 32: where an i8/u8, i16/u16, i32 reading of a counter changes sign or wraps
+
+
+def replay_paths(chk, bindirs, stream, plans, exps, tag, source, stats, chunk=8000, boundaries=()):
     """run the plans on the real code (each build), compare every step with the model (B1), stream to the judge"""
     for k, p in enumerate(plans):
         p["run"] = k
@@ -210,13 +213,15 @@ def replay_paths(chk, bindirs, stream, plans, exps, tag, source, stats, chunk=80
         ppath = os.path.join(chk.work, "plan_%s_%d.ndjson" % (tag, c0))
         core.write_ndjson(ppath, plans[c0:c0 + chunk])
         stream.planfiles.append(ppath)
-        for build, bindir in bindirs.items():
-            runs = R.run_harness(bindir, ["plan", ppath])
+        for build, bits in [(b, None) for b in bindirs] + [(b, x) for x in boundaries for b in bindirs]:
+            bindir = bindirs[build]
+            env = {"VERIF_RING_BOUNDARY_BITS": str(bits)} if bits else None
+            runs = R.run_harness(bindir, ["plan", ppath], env=env)
             if len(runs) != len(plans[c0:c0 + chunk]):
                 raise core.ToolError("harness returned %d runs for %d plans" % (len(runs), len(plans[c0:c0 + chunk])))
             for i, (reset, evs) in enumerate(runs):
                 k = c0 + i
-                stream.add(reset, evs, group=tag, source="%s/%s" % (source, build), plan_ref=(ppath, i))
+                stream.add(reset, evs, group=tag, source="%s%s/%s" % (source, " around 2^%d" % bits if bits else "", build), plan_ref=(ppath, i), env=env)
                 stats["runs"] += 1
                 div = None
                 for j, (op, arg, node) in enumerate(exps[k]):
@@ -305,7 +310,12 @@ def run(tier):
                 plans.append(p)
                 exps.append(e)
         st = {"model_states": res.distinct, "model_edges": g.nedges, "paths": len(paths), "edges_covered_by_tour": g.nedges}
-        replay_paths(chk, bindirs, stream, plans, exps, "tour_" + name, "tour " + name, st)
+        # the small graphs are also replayed with the window of start values placed around 2^7, 2^8, 2^15, 2^16, 2^30, 2^31
+        # (the model is translation invariant; the code must be too): every point where a signed or narrower reading of
+        # the counters would change sign or wrap
+        bnd = BOUNDARY_BITS if name in ("sq1", "cq1", "sq2", "cq2", "cq4a") else ()
+        st["boundaries_replayed"] = [32] + list(bnd)
+        replay_paths(chk, bindirs, stream, plans, exps, "tour_" + name, "tour " + name, st, boundaries=bnd)
         tour_stats[name] = st
         total_edges += g.nedges
         conformance = conformance and not st["divergent_runs"]
@@ -418,7 +428,7 @@ def run(tier):
     chk.assumptions = [
         "real counter width: RingInd.tla is a typed copy of Ring.tla's actions (TLC checks that every Ring transition is a RingInd transition under the width-2H mapping); Apalache proves its inductive invariant for W = 2^32, every start value and every power-of-two ring size up to 32768, under the read-before-the-kernel-acts discipline; an obligation that hits its time limit is reported as not_discharged and proves nothing",
         "interleaving at call granularity (application call / kernel consume k / kernel post k); a concurrently running kernel thread (SQPOLL) and memory-ordering effects are not explored",
-        "model counters 0..2H-1 stand for real 2^32-H+m: exactly one u32 wrap per run in toured configurations; random runs start at 2^32-d (d small), at 0, at u32::MAX or far from the wrap",
+        "model counters 0..2H-1 stand for real 2^32-H+m: exactly one u32 wrap per run in toured configurations; the tours of the small graphs are repeated with the window placed around 2^7, 2^8, 2^15, 2^16, 2^30 and 2^31; random runs start at 2^32-d (d small), at 0, at u32::MAX or far from the wrap",
         "the simulated kernel consumes through sq_array and decides from the shared head/tail words only, like the real one; kernel overflow handling of a full completion ring is not modelled (it does not post)",
         "a ring refusing a slot is admitted only when all ring-size slots are outstanding (a ring of size n holds n entries)",
         "the return value of flush_submission_queue is judged at the property level: it must be the number of published, not yet consumed entries (what the caller hands to io_uring_enter); needs_wakeup() must be the test of the NEED_WAKEUP bit for every value of the flags word",
